@@ -129,6 +129,10 @@ func (n *Namespace) Verify() error {
 }
 
 func (n *Namespace) verifyName() error {
+	// users' namespace fields are trimmed in User.verify and compared with the namespace
+	// name, so the name has to be trimmed too: otherwise a name with surrounding blanks passes
+	// the first Verify and fails every later one (LoadNamespace, LoadNamespaces).
+	n.Name = strings.TrimSpace(n.Name)
 	if !n.isNameExists() {
 		return fmt.Errorf("must specify namespace name")
 	}
